@@ -37,7 +37,21 @@ impl Manager {
                     break;
                 }
             }
-            cfg.get_names_of_interrupt_handler_functions()
+            let mut names = cfg.get_names_of_interrupt_handler_functions();
+
+            // Dead code was kept so far: an installation that nothing leads
+            // to still names its handler. But what falls out of dead code
+            // into an installation must not blur the address it writes, so
+            // the names are looked up once more without those edges.
+            EliminateDeadCodeDirectionsPass::run(&mut cfg)?;
+            loop {
+                AvailableValuePass::run(&mut cfg)?;
+                if !EcallTerminationPass::terminate(&mut cfg) {
+                    break;
+                }
+            }
+            names.extend(cfg.get_names_of_interrupt_handler_functions());
+            names
         };
 
         // Stage 2: Generate full CFG
